@@ -17,6 +17,8 @@ enum Stmt {
     DropSchema { if_exists: bool },
     CreateTable { schema: bool, name: &'static str, if_not_exists: bool, or_replace: bool },
     Ctas,
+    /// CREATE TEMP TABLE IF NOT EXISTS <t1|t2> AS ...
+    CtasIfNotExists { target_t1: bool },
     CreateView,
     DropTable { name: &'static str, if_exists: bool },
     InsertValues { schema: bool },
@@ -38,6 +40,8 @@ impl Stmt {
             Stmt::DropSchema { if_exists } => format!("DROP SCHEMA {}s1", if *if_exists { "IF EXISTS " } else { "" }),
             Stmt::CreateTable { schema, name, if_not_exists, or_replace } => format!("CREATE {}TEMP TABLE {}{}{} (a INT, b TEXT)", if *or_replace { "OR REPLACE " } else { "" }, if *if_not_exists { "IF NOT EXISTS " } else { "" }, if *schema { "s1." } else { "" }, name),
             Stmt::Ctas => "CREATE TEMP TABLE t2 AS SELECT a + 100 AS a, b FROM t1".into(),
+            Stmt::CtasIfNotExists { target_t1: true } => "CREATE TEMP TABLE IF NOT EXISTS t1 AS SELECT CAST(7 AS INT) AS a, 'z' AS b".into(),
+            Stmt::CtasIfNotExists { target_t1: false } => "CREATE TEMP TABLE IF NOT EXISTS t2 AS SELECT a + 100 AS a, b FROM t1".into(),
             Stmt::CreateView => "CREATE TEMP VIEW v1 AS SELECT * FROM t1".into(),
             Stmt::DropTable { name, if_exists } => format!("DROP TABLE {}{}", if *if_exists { "IF EXISTS " } else { "" }, name),
             Stmt::InsertValues { schema } => format!("INSERT INTO {}t1 VALUES (1, 'x'), (2, NULL)", if *schema { "s1." } else { "" }),
@@ -63,6 +67,7 @@ fn alphabet(tier: Tier) -> Vec<Stmt> {
         Stmt::DropTable { name: "t1", if_exists: false },
         Stmt::CreateView,
         Stmt::Ctas,
+        Stmt::CtasIfNotExists { target_t1: true },
         Stmt::CreateSchema { if_not_exists: false },
         Stmt::CreateTable { schema: true, name: "t1", if_not_exists: false, or_replace: false },
         Stmt::DropSchema { if_exists: false },
@@ -73,6 +78,7 @@ fn alphabet(tier: Tier) -> Vec<Stmt> {
         v.extend([
             Stmt::CreateTable { schema: false, name: "t1", if_not_exists: true, or_replace: false },
             Stmt::CreateTable { schema: false, name: "t1", if_not_exists: false, or_replace: true },
+            Stmt::CtasIfNotExists { target_t1: false },
             Stmt::CreateSchema { if_not_exists: true },
             Stmt::DropSchema { if_exists: true },
             Stmt::DropTable { name: "t1", if_exists: true },
@@ -156,6 +162,28 @@ fn apply(s: &Sess, st: &Stmt) -> (Expect, Sess, Option<i128>) {
             };
             if s.tables.contains_key(&tkey("temp", "t2")) {
                 return (Expect::Error, n, None);
+            }
+            let rows: Vec<Row> = src.iter().map(|r| vec![add(&r[0], 100), r[1].clone()]).collect();
+            let cnt = rows.len() as i128;
+            n.tables.insert(tkey("temp", "t2"), rows);
+            (Expect::Ok, n, Some(cnt))
+        }
+        Stmt::CtasIfNotExists { target_t1: true } => {
+            // an existing table is left exactly as it is; otherwise the table is created from the query
+            if s.tables.contains_key(&tkey("temp", "t1")) {
+                return (Expect::Ok, n, None);
+            }
+            n.tables.insert(tkey("temp", "t1"), vec![vec![Val::Int(7), Val::Str("z".into())]]);
+            (Expect::Ok, n, Some(1))
+        }
+        Stmt::CtasIfNotExists { target_t1: false } => {
+            let src = match s.tables.get(&tkey("temp", "t1")) {
+                Some(r) => r,
+                // the source does not bind; with an existing target either outcome leaves the state unchanged
+                None => return (if s.tables.contains_key(&tkey("temp", "t2")) { Expect::Either } else { Expect::Error }, n, None),
+            };
+            if s.tables.contains_key(&tkey("temp", "t2")) {
+                return (Expect::Ok, n, None);
             }
             let rows: Vec<Row> = src.iter().map(|r| vec![add(&r[0], 100), r[1].clone()]).collect();
             let cnt = rows.len() as i128;
